@@ -71,38 +71,13 @@ func checkC12(c *Ctx) {
 	}
 	a.r4()
 	// R5: exact envelopes (shared with C11)
-	if t := (&c11{c: c, info: p.TypesInfo, pure: map[*types.Func]int{}, r3name: "C12.R5"}); t.discover() {
-		t.r3()
-	}
+	c11model(c, map[string]string{"envelopes": "C12.R5", "parent-links": "C12.R5", "no-panic": "C12.R5"})
 	c.Floor("C12.R4", 3)
-	c.Floor("C12.R5", 5)
+	c.Floor("C12.R5", 3)
 	c.Floor("C12.R1", 4)
 	c.Floor("C12.R2", 4)
 	c.Floor("C12.R3", 3)
 	c.Floor("C12.R6", 2)
-}
-
-func (a *c12) reach(root *types.Func) []*types.Func {
-	seen := map[*types.Func]bool{}
-	var out []*types.Func
-	var visit func(f *types.Func)
-	visit = func(f *types.Func) {
-		if f == nil || seen[f] || a.c.P.Decl(f) == nil {
-			return
-		}
-		seen[f] = true
-		out = append(out, f)
-		ast.Inspect(a.c.P.Decl(f).Body, func(n ast.Node) bool {
-			if call, ok := n.(*ast.CallExpr); ok {
-				if g := callee(a.info, call); g != nil && g.Pkg() == root.Pkg() {
-					visit(g)
-				}
-			}
-			return true
-		})
-	}
-	visit(root)
-	return out
 }
 
 func (a *c12) isBound(f *types.Func) bool {
@@ -298,34 +273,4 @@ type boundCmp struct {
 	fn   *types.Func
 	cmp  *ast.BinaryExpr
 	stmt *ast.IfStmt
-}
-
-func (a *c12) boundComparisons(fns []*types.Func) []boundCmp {
-	var out []boundCmp
-	for _, fn := range fns {
-		fd := a.c.P.Decl(fn)
-		ast.Inspect(fd.Body, func(n ast.Node) bool {
-			is, ok := n.(*ast.IfStmt)
-			if !ok {
-				return true
-			}
-			ast.Inspect(is.Cond, func(m ast.Node) bool {
-				b, ok := m.(*ast.BinaryExpr)
-				if !ok {
-					return true
-				}
-				switch b.Op {
-				case token.LSS, token.LEQ, token.GTR, token.GEQ:
-					lc, rc := a.exprClass(b.X), a.exprClass(b.Y)
-					// a filter: one side MINDIST-derived, the other other-bound-derived
-					if (lc&1 != 0 && rc&2 != 0) || (lc&2 != 0 && rc&1 != 0) {
-						out = append(out, boundCmp{fn, b, is})
-					}
-				}
-				return true
-			})
-			return true
-		})
-	}
-	return out
 }
